@@ -14,9 +14,9 @@ from lib import tlc, build, tracev
 from lib.ctx import MachineryError
 from harness.mt import mtlib
 
-QUICK_MC = ["err1", "badhdr2", "direct", "direrr", "trunc2", "memtight", "live", "live_trunc"]
+QUICK_MC = ["err1", "badhdr2", "direct", "direrr", "trunc2", "memtight", "live", "live_trunc", "cat2_badpad", "cat1_trailpad"]
 ALL_MC = ["ok", "err2", "err1", "badhdr", "badhdr2", "direct", "direrr", "empty", "trunc", "trunc2", "badtail",
-          "spur", "timeout", "ff_err", "ff_trunc", "memtight", "live", "live_trunc"]
+          "spur", "timeout", "ff_err", "ff_trunc", "memtight", "live", "live_trunc", "cat2", "cat2_pad0", "cat2_badpad", "cat1_trailpad", "reinit", "reinit_err"]
 
 def model_check(ctx):
     names = QUICK_MC if ctx.quick else ALL_MC
@@ -74,6 +74,19 @@ def make_files(ctx):
         cut = b["off"] + b["bh"] + b["insz"] - back
         lb["filelen"] = cut
         files.append((nm, src[:cut], lb))
+    # concatenated Streams (what xz always decodes): the same Stream twice, separated / followed by Stream Padding
+    small = coders.encode_xz(coders.rand_data(rng, 30000, "text"), preset=0, check=lz.CHECK_CRC32, block_size=12000)
+    for nm, pad in (("cat2_pad4", 4), ("cat2_pad0", 0), ("cat2_pad8", 8), ("cat2_badpad3", 3)):
+        lc = mtlib.layout(small)
+        lc["copies"] = 2; lc["pad"] = pad; lc["concat"] = True
+        data2 = (small + bytes(pad)) * 2
+        lc["filelen"] = len(data2)
+        files.append((nm, data2, lc))
+    lc = mtlib.layout(small); lc["copies"] = 2; lc["pad"] = 4; lc["concat"] = True
+    data2 = (small + bytes(4)) * 2
+    cut = len(small) + 4 + 12 + 20
+    lc["filelen"] = cut
+    files.append(("cat2_trunc", data2[:cut], lc))
     # Blocks without size fields (single-threaded encoder + FULL_FLUSH): direct mode
     c = lz.Coder(); assert c.init("lzma_easy_encoder", 0, lz.CHECK_CRC32) == lz.OK
     import ctypes as C
@@ -95,9 +108,9 @@ def make_files(ctx):
     files.append(("direct_corrupt_b2", bytes(x), ld))
     return files
 
-def st_decode(data):
+def st_decode(data, flags=0):
     from harness.pydrv import lz
-    c = lz.Coder(); assert c.init("lzma_stream_decoder", lz.UINT64_MAX, 0) == lz.OK
+    c = lz.Coder(); assert c.init("lzma_stream_decoder", lz.UINT64_MAX, flags) == lz.OK
     r = lz.run_coder(c, data, out_cap=1 << 20); c.end()
     return r["ret"], r["out"]
 
@@ -113,13 +126,15 @@ def run(ctx):
     for fi, (name, data, lay) in enumerate(files):
         path = os.path.join(wd, name + ".xz")
         open(path, "wb").write(data)
-        st_ret, st_out = st_decode(data)
+        cflag = lz.CONCATENATED if lay.get("concat") else 0
+        st_ret, st_out = st_decode(data, cflag)
         settings = [(2, 0, 0), (3, 0, 0)] if ctx.quick else [(1, 0, 0), (2, 0, 0), (3, 0, 0), (4, 0, 0), (8, 0, 0)]
         if fi % 3 == 0 or not ctx.quick:
             settings.append((2, 1, 0))          # timeout = 1 ms
         if fi % 3 == 1 or not ctx.quick:
             settings.append((2, 0, lz.FAIL_FAST))
         for (nw, to, fl) in settings:
+            fl = fl | cflag
             g = dict(file=name, path=path, lay=lay, nw=nw, timeout=to, flags=fl, runs=[], st=(st_ret, st_out))
             groups.append(g)
             for k in range(nseeds):
@@ -169,7 +184,7 @@ def run(ctx):
         rets = [e for e in evs if e["e"] == "Ret"]
         last = rets[-1]["a"] if rets else None
         if params["endafter"] < 0:
-            if not g["flags"]:
+            if not (g["flags"] & lz.FAIL_FAST):
                 if last != st_ret or out != st_out:
                     ctx.violation("stequiv:%s" % g["file"],
                                   "threaded decoder: ret=%s out=%d bytes; single-threaded: ret=%s out=%d bytes (%s)" % (
@@ -189,7 +204,8 @@ def run(ctx):
             return g, 0
         lay = g["lay"]
         cfgline = dict(e="Config", nw=g["nw"], hdrsz=lay["hdrsz"], tailsz=lay["tailsz"], tailok=lay["tailok"],
-                       filelen=lay["filelen"], timeout=bool(g["timeout"]), failfast=bool(g["flags"]),
+                       filelen=lay["filelen"], timeout=bool(g["timeout"]), failfast=bool(g["flags"] & 32),
+                       copies=lay.get("copies", 1), pad=lay.get("pad", 0), concat=bool(lay.get("concat")),
                        blocks=[{k: b[k] for k in ("hdr", "bh", "insz", "outsz", "errAt", "mem", "corrupt")} for b in lay["blocks"]])
         sub = type(ctx)(ctx.pid, ctx.tier, ctx.seed)      # private accounting, merged below
         sub.workdir = os.path.join(ctx.workdir, "g%d" % id(g)); os.makedirs(sub.workdir, exist_ok=True)
